@@ -69,7 +69,11 @@ def random_action(cl, rng, w, state):
     if k == 'Tick':
         return ('Tick', rng.choice(ids), a[2])
     if k == 'Deliver':
-        return ('Deliver',) + rng.choice(sorted(chans))
+        d = ('Deliver',) + rng.choice(sorted(chans))
+        if cl.cfg.get('journal') and w.get('killat', 0) > 0 and rng.random() < 0.06 and _writes_likely(cl, d):
+            # the receiver is killed at one of the storage writes of this very delivery
+            return ('KillAt', d[2], rng.choice([1, 1, 2, 2, 3, 4]), list(d))
+        return d
     if k == 'Submit':
         state['ncmd'] += 1
         kinds = state.get('kinds', [('op', 1.0)])
@@ -115,6 +119,9 @@ def random_action(cl, rng, w, state):
             actor = cl._actor(inner)
             if actor is not None and cl.applicable(inner):
                 cands.append((actor, inner))
+        for (i, j), q in sorted(cl.net.chan.items()):
+            if q and j in N and N[j].alive and cl.applicable(('Deliver', i, j)) and _writes_likely(cl, ('Deliver', i, j)):
+                cands.append((j, ('Deliver', i, j)))
         writers = [c for c in cands if _writes_likely(cl, c[1])]
         if writers and rng.random() < 0.7:
             cands = writers
@@ -198,6 +205,18 @@ def run_random(cfg, seed, steps, weights=None, maxcmd=12, extra=None):
                 if not cl.applicable(act):
                     continue
                 trace.append(cl.step(act))
+                # a follower killed while it stored entries: what it had put on the wire before it died arrives, the leader
+                # counts it, the follower comes back (whatever it acknowledged must be in its journal)
+                if act[0] == 'KillAt' and act[3][0] == 'Deliver' and rng.random() < 0.6:
+                    f, l = act[1], act[3][1]
+                    for _k in range(6):
+                        a2 = ('Deliver', f, l)
+                        if not cl.applicable(a2):
+                            break
+                        trace.append(cl.step(a2))
+                    for a2 in (('Tick', l, 'z'), ('Restart', f), ('Tick', f, 'z'), ('Tick', f, 'h')):
+                        if cl.applicable(a2):
+                            trace.append(cl.step(a2))
                 # a process that dies right after it granted a vote (what it promised must be on disk by then)
                 if act[0] == 'Deliver' and cfg.get('journal') and ww.get('crash', 0) > 0:
                     u = trace[-1].get('upd', {}).get(act[2])
